@@ -36,3 +36,32 @@ var (
 		return c, ip, nil
 	}
 )
+
+// VerifNDPConn is the exported name of verifNDPConn for harnesses in other packages.
+type VerifNDPConn = verifNDPConn
+
+// VerifSetDialSeams replaces (nil: restores) the three functions (*Dialer).dial
+// calls to find, check and open the interface.
+func VerifSetDialSeams(
+	lookup func(string) (*net.Interface, error),
+	check func(*net.Interface, func() ([]net.Addr, error)) error,
+	dial func(*net.Interface) (VerifNDPConn, netip.Addr, error),
+) {
+	verifLookupInterface, verifCheckInterface = lookupInterface, checkInterface
+	verifDialNDP = func(ifi *net.Interface) (verifNDPConn, netip.Addr, error) {
+		c, ip, err := dialNDP(ifi)
+		if err != nil {
+			return nil, ip, err
+		}
+		return c, ip, nil
+	}
+	if lookup != nil {
+		verifLookupInterface = lookup
+	}
+	if check != nil {
+		verifCheckInterface = check
+	}
+	if dial != nil {
+		verifDialNDP = dial
+	}
+}
